@@ -110,6 +110,10 @@ class OMPLoopTrans(ParallelLoopTrans):
     <BLANKLINE>
 
     '''
+    # This directive always parallelises the loop: the 'sequential' option
+    # (which switches off the dependence analysis) is not supported.
+    _supports_sequential = False
+
     def __init__(self, omp_directive="do", omp_schedule="auto"):
         super().__init__()
         # Whether or not to generate code for (run-to-run on n threads)
